@@ -121,7 +121,7 @@ EXPORT errno_t _strpbrk_s_chk(char *dest, rsize_t dmax, char *src, rsize_t slen,
     /*
      * look for a matching char in the substring src
      */
-    while (*dest && dmax) {
+    while (dmax && *dest) {
 
         ps = src;
         len = slen;
